@@ -299,6 +299,19 @@ def corpus() -> list[dict]:
     cs.append({"api": "high", "naddr": 1, "early": [[0, f"{0x30 + i:02x}"] for i in range(36)],
                "progs": {"0": [[Y, {"s": 0, "do": "r"}]] * 40},
                "script": [[["a", 0, "a0"]], [["a", 0, "a1"]], [["a", 0, "a2"]]], "never": []})
+    # a start-up backlog far beyond any internal batch / queue size (more than 1024 datagrams read before serve() is awaited,
+    # from 1 and from 3 addresses): nothing may be dropped, per-address order kept
+    for n, naddr in ((1350, 1), (1350, 3), (2100, 2)):
+        cs.append({"api": "low", "naddr": naddr, "early": [[i % naddr, f"{i % 251:02x}{i // 251:02x}"] for i in range(n)], "progs": {},
+                   "script": [[["a", 0, "ffa0"]], [["a", naddr - 1, "ffa1"]], [], []], "never": []})
+    # fixed defect (/repo 14674d9): eager task factory + a long queue behind a waiting generator, successors that never suspend:
+    # one nested call per queued datagram -> RecursionError from about 165 datagrams on (docs/C16-fix-1-repro.py)
+    for n in (170, 200, 400):
+        for api in ("low", "high"):
+            for do in ("r", "e"):
+                cs.append({"api": api, "naddr": 1, "early": [], "eager": True,
+                           "progs": {"0": [[{"s": 1, "do": "r"}]] + [[{"s": 0, "do": do}]] * (n + 5)},
+                           "script": [[["a", 0, f"{i % 250:02x}"] for i in range(n + 1)], [], [["g", 0]], [], []], "never": []})
     return cs
 
 
@@ -437,6 +450,9 @@ def _backlog_case(rng) -> dict:
         return f"{cnt[0] % 256:02x}" if cnt[0] % 256 != 0x21 else "20"
 
     nearly = rng.choice([17, 18, 20, 24, 31, 32, 33, 34, 40, 48, 49, 50, 60, rng.randint(17, 60), rng.randint(17, 60)])
+    if rng.random() < 0.04:
+        # far beyond any internal batch or queue bound (powers of two and their neighbours up to a few thousand)
+        nearly = rng.choice([255, 256, 257, 511, 512, 513, 1023, 1024, 1025, 1026, 2047, 2048, 2049, rng.randint(300, 3000)])
     hot = rng.randrange(naddr)
     early = [[hot if rng.random() < 0.7 else rng.randrange(naddr), dgram()] for _ in range(nearly)]
     progs = {}
